@@ -201,6 +201,46 @@ ESoupCase(ix) ==
   [id |-> "esoup" \o IdxStr(ix), gen |-> "esoup", prog |-> "", p |-> 0, op |-> "esoup", i |-> Len(ix), a |-> 0,
    parts |-> <<[s |-> "let x = 2\nlet y = x " \o JoinToks([j \in 1..Len(ix) |-> ExprAlphabet[ix[j]]], 1) \o "\n"]>>]
 
+(* (c2) declaration soup: every sequence of n lines of a pool of interface / implementation / type declarations and
+        their uses, in which some of the names are not declared, declared twice, or used before anything implements them *)
+DeclLines == <<
+  "interface Sp { fn say(self) -> int }",
+  "type Pt = { x: int }",
+  "implement Sp for Pt { fn say(self) -> int { 1 } }",
+  "implement Sp for Nope { fn say(self) -> int { 1 } }",
+  "implement Sp for array<Nope> {}",
+  "implement Sp for array<Pt> {}",
+  "implement Nope for Pt {}",
+  "implement ToString for Nope { fn str(self) -> string { \"a\" } }",
+  "println(Sp.say(5))",
+  "println(Pt(1).say())",
+  "println(Pt(1))",
+  "if true { println(1) } else { println }",
+  "fn dup(a, a = 1) { a }",
+  "println(dup(1))",
+  "let o: option<void> = option.some(nil)",
+  "println(match o { _ -> 1 })",
+  "println(match o { .some(_) -> 1, .none -> 2 })" >>
+LineIdx == 1..Len(DeclLines)
+RECURSIVE JoinLines(_, _)
+JoinLines(ls, i) == IF i > Len(ls) THEN "" ELSE ls[i] \o "\n" \o JoinLines(ls, i + 1)
+LSoupCase(ix) ==
+  [id |-> "lsoup" \o IdxStr(ix), gen |-> "lsoup", prog |-> "", p |-> 0, op |-> "lsoup", i |-> Len(ix), a |-> 0,
+   parts |-> <<[s |-> JoinLines([j \in 1..Len(ix) |-> DeclLines[ix[j]]], 1)]>>]
+
+(* (c3) argument lists: every sequence of n arguments from a pool (positional, named, named twice, unknown name) in a call
+        of a function with a required and a defaulted parameter, and in a struct construction *)
+ArgAlphabet == << "\"p\"", "name = \"a\"", "greeting = \"b\"", "zz = 1" >>
+ArgIdx == 1..Len(ArgAlphabet)
+RECURSIVE JoinArgs(_, _)
+JoinArgs(as, i) == IF i > Len(as) THEN "" ELSE as[i] \o (IF i < Len(as) THEN ", " ELSE "") \o JoinArgs(as, i + 1)
+ArgsCase(callee, ix) ==      \* callee: 1 = function, 2 = struct constructor
+  LET args == JoinArgs([j \in 1..Len(ix) |-> ArgAlphabet[ix[j]]], 1) IN
+  [id |-> "args" \o ToString(callee) \o IdxStr(ix), gen |-> "args", prog |-> "", p |-> 0, op |-> "args", i |-> Len(ix), a |-> callee,
+   parts |-> <<[s |-> IF callee = 1
+                      THEN "fn greet(name, greeting = \"hello\") { name .. greeting }\nprintln(greet(" \o args \o "))\n"
+                      ELSE "type Gr = { name: string, greeting: string }\nlet g = Gr(" \o args \o ")\nprintln(g.name)\n"]>>]
+
 (* (d) typing: every prefix of a few short texts that are rich in lexical forms (escapes in strings and characters,
        triple-quoted text, comments, digit separators, floats, operators of two characters): what an editor hands to
        the analysis while the text is being typed *)
